@@ -67,11 +67,17 @@ def jobs(tier, seed):
                 out.append(('grad-%s-o%d-n%d' % (method, order, n), dict(kind='grad', method=method, order=order, n=n, m=0, k=0, drive='e2e')))
         for n in (1, 2, 3):
             out.append(('dirdiff-%s-n%d' % (method, n), dict(kind='dirdiff', method=method, order=2, n=n, m=0, k=0, drive='e2e')))
+        for xs, vs in (((2, 2), (2, 2)), ((2, 2), (4,)), ((4,), (2, 2)), ((2, 3), (2, 3)), ((3, 1), (3,))):
+            out.append(('dirdiff-%s-x%s-v%s' % (method, 'x'.join(map(str, xs)), 'x'.join(map(str, vs))),
+                        dict(kind='dirdiff', method=method, order=2, n=int(np.prod(xs)), m=0, k=0, drive='e2e', xshape=xs, vshape=vs)))
+        for xs in ((2, 2), (3, 1), (1, 2)):
+            out.append(('grad-%s-x%s' % (method, 'x'.join(map(str, xs))),
+                        dict(kind='grad', method=method, order=2, n=int(np.prod(xs)), m=0, k=0, drive='e2e', xshape=xs)))
     out.append(('dirdiff-guard', dict(kind='guard', method='central', order=2, n=2, m=0, k=0, drive='e2e')))
     return out
 
 
-XPTS = [0.5, -0.75, 1.25, 2.0]
+XPTS = [0.5, -0.75, 1.25, 2.0, -1.5, 0.25]
 
 
 def _gen(nd):
@@ -118,6 +124,8 @@ def make_map(kind, n, m, k):
     def f(x):
         acc = d
         xx = x if np.ndim(x) else [x]
+        if np.ndim(x) > 1:
+            xx = [x[idx] for idx in np.ndindex(np.shape(x))]
         for j in range(n):
             acc = acc + c[j] * xx[j]
         return acc
@@ -139,15 +147,18 @@ def _near(v, want, box, job, name, info):
     job.prove(name, z3.And(dr <= tol, -dr <= tol, di <= tol, -di <= tol), box, info)
 
 
-def run_job(job, kind, method, order, n, m, k, drive):
+def run_job(job, kind, method, order, n, m, k, drive, xshape=None, vshape=None):
     nd = cm.nd_mods()['nd']
     if kind == 'guard':
         return guard(job, nd)
     if kind == 'dirdiff':
-        return dirdiff(job, nd, method, n)
+        return dirdiff(job, nd, method, n, xshape, vshape)
     f, names, expected, eshape = make_map(kind if kind != 'grad' else 'scalar', n, m, k)
     box = [z3.And(z3.Real(nm) >= -1, z3.Real(nm) <= 1) for nm in names]
     x = np.array(XPTS[:n])
+    if xshape is not None:
+        # Gradient of a scalar f of an x with several axes: f is called with the flattened x, result has shape (x.size,)
+        x = x.reshape(xshape)
     cls = nd.Gradient if kind == 'grad' else nd.Jacobian
 
     if drive == 'e2e':
@@ -176,7 +187,7 @@ def run_job(job, kind, method, order, n, m, k, drive):
             # Gradient equals the single Jacobian row
             def harness_j():
                 with tr.traced(), sn.abstract_division(products=True), cm.quiet():
-                    return nd.Jacobian(f, step=_gen(nd), method=method, order=order)(x)
+                    return nd.Jacobian(f, step=_gen(nd), method=method, order=order)(np.ravel(x))
             pj = [q for q in sn.Explorer(harness_j, assumptions=box, max_paths=64).paths() if q.exc is None]
             if pj:
                 Jr = np.asarray(pj[0].result)
@@ -213,13 +224,22 @@ def run_job(job, kind, method, order, n, m, k, drive):
                       dict(key='C03:%s:%s:wrong-entry' % (kind, method), kind=kind, idx=list(idx), names=names))
 
 
-def dirdiff(job, nd, method, n):
+VECS = ([3.0, 4.0, 12.0, -2.0, 1.0, 5.0], [1.0, -2.0, 2.0, 3.0, -1.0, 0.5])
+
+
+def dirdiff(job, nd, method, n, xshape=None, vshape=None):
     core = cm.nd_mods()['core']
     f, names, expected, _s = make_map('scalar', n, 0, 0)
     box = [z3.And(z3.Real(nm) >= -1, z3.Real(nm) <= 1) for nm in names]
     x = np.array(XPTS[:n])
-    for vec in ([3.0, 4.0, 12.0][:n], [1.0, -2.0, 2.0][:n]):
+    if xshape is not None:
+        x = x.reshape(xshape)
+    for vec in (VECS[0][:n], VECS[1][:n]):
         vec = np.array(vec)
+        if vshape is not None:
+            # v "of the same size as x": any shape with that many elements; |v| is the Euclidean length of its elements
+            # (for a matrix-shaped v of rank >= 2 the spectral norm would differ)
+            vec = vec.reshape(vshape)
 
         def harness():
             with tr.traced(), sn.abstract_division(products=True), cm.quiet():
@@ -229,13 +249,13 @@ def dirdiff(job, nd, method, n):
             if p.exc is not None:
                 job.violation('raises', dict(key='C03:dirdiff:raises:%s' % type(p.exc).__name__, kind='dirdiff', exc=repr(p.exc)[:200]))
                 continue
-            unit = vec / np.linalg.norm(vec)
+            unit = vec.ravel() / np.sqrt(np.sum(vec.ravel() ** 2))
             want = None
             for j in range(n):
                 t = expected((j,)) * float(unit[j])
                 want = t if want is None else want + t
             _near(p.result, want, p.conds(), job, 'directionaldiff == c.v/|v|',
-                  dict(key='C03:dirdiff:%s:wrong-value' % method, kind='dirdiff', vec=list(map(float, vec)), names=names))
+                  dict(key='C03:dirdiff:%s:wrong-value' % method, kind='dirdiff', vec=list(map(float, vec.ravel())), names=names))
         job.absorb_explorer(ex)
 
 
@@ -259,6 +279,8 @@ def replay(cex):
     method, order, n, m, k = cfg['method'], cfg['order'], cfg['n'], cfg['m'], cfg['k']
     rng = np.random.default_rng(5)
     x = np.array(XPTS[:n])
+    if cfg.get('xshape') is not None and kind in ('grad', 'dirdiff'):
+        x = x.reshape(cfg['xshape'])
     if kind == 'guard':
         try:
             core.directionaldiff(lambda x: x[0], [1.0, 2.0], [1.0, 2.0, 3.0])
@@ -278,14 +300,16 @@ def replay(cex):
             want = A
         else:
             c, d = rng.uniform(-1, 1, size=n), 0.3
-            f = lambda x: c @ np.atleast_1d(x) + d  # noqa
+            f = lambda x: c @ np.atleast_1d(x).ravel() + d  # noqa
             want = c if n > 1 else c[0]
         try:
             with cm.quiet():
                 if kind == 'dirdiff':
-                    vec = np.array([3.0, 4.0, 12.0][:n])
+                    vec = np.array(cex.get('vec') or VECS[0][:n])
+                    if cfg.get('vshape') is not None:
+                        vec = vec.reshape(cfg['vshape'])
                     got = core.directionaldiff(f, x, vec, method=method)
-                    want = c @ (vec / np.linalg.norm(vec))
+                    want = c @ (vec.ravel() / np.sqrt(np.sum(vec.ravel() ** 2)))
                 elif kind == 'grad':
                     got = nd.Gradient(f, method=method, order=order)(x)
                 else:
